@@ -1471,7 +1471,8 @@ class CParser:
             type=decl or c_ast.TypeDecl(None, None, None, None),
             coord=spec_coord,
         )
-        return self._fix_decl_name_type(decl, spec["type"])
+        decl = self._fix_decl_name_type(decl, spec["type"])
+        return fix_atomic_specifiers(cast(Any, decl))
 
     # BNF: identifier_list_opt : identifier_list | empty
     def _parse_identifier_list_opt(self) -> Optional[c_ast.Node]:
@@ -1508,7 +1509,8 @@ class CParser:
             type=decl or c_ast.TypeDecl(None, None, None, None),
             coord=coord,
         )
-        return cast(c_ast.Typename, self._fix_decl_name_type(typename, spec["type"]))
+        typename = self._fix_decl_name_type(typename, spec["type"])
+        return cast(c_ast.Typename, fix_atomic_specifiers(cast(Any, typename)))
 
     # BNF: abstract_declarator_opt : pointer? direct_abstract_declarator?
     def _parse_abstract_declarator_opt(self) -> Optional[c_ast.Node]:
